@@ -5,6 +5,7 @@ CONSTANTS
   MaxNow = 4
   MaxStep = 2
   MaxOps = 3
+  Chain = "none"
   Variant = "ok"
 INVARIANTS Accepted
 PROPERTIES CallsReturn DueStarted
